@@ -311,7 +311,7 @@ PROPS["C03"] = {
 }
 PROPS["C07"] = {
     "runs": seq_check(["VH_SEQ_V2ReviseRevise", "VH_SEQ_V2ResolutionOutputs", "VH_SEQ_V2ResolveOnce", "VH_SEQ_V1FormContract", "VH_SEQ_V1Revision", "VH_SEQ_V1Resolution"]) + [
-        {"pkg": "consensus", "harness": ["harness/cons/storageproof.go"], "run": "^VH_C07_V2StorageProof$", "params": {"quick": {"maxleaves": 5}, "thorough": {"maxleaves": 9}},
+        {"pkg": "consensus", "harness": ["harness/cons/storageproof.go", "harness/common/cons_world.go", "harness/common/cons_support.go"], "run": "^VH_C07_V2StorageProof$", "params": {"quick": {"maxleaves": 5}, "thorough": {"maxleaves": 9}},
          "flags": {"quick": ["-timeout", "5000", "-maxpaths", "200000"], "thorough": ["-timeout", "20000", "-maxpaths", "2000000"]},
          "must_reach": {"VH_C07_V2StorageProof": ["accepted", "end"]}},
         {"pkg": "consensus", "harness": ["harness/cons/storageproof.go", "harness/common/cons_world.go", "harness/common/cons_support.go"], "run": "^VH_C07_V1StorageProof$",
